@@ -302,6 +302,7 @@ pub fn check_main(id: &str, tier: &str) -> ! {
 /// once by 1 worker and once by up to 16 workers; per-case trace hashes and result digests must agree.
 pub fn selfcheck_main(checks: &[String], n_cases: u64) -> ! {
    let seed: u64 = std::env::var("VERIF_SEED").ok().and_then(|s| s.parse().ok()).unwrap_or(1);
+   std::env::set_var("VSIM_DIGESTS", "1");
    let mut total = 0u64;
    for id in checks {
       let mut runs = vec![];
